@@ -130,6 +130,14 @@ def check_cases(res, exe, drv, cases, stats, samples):
 # "contains" family: (name, mode, segmentPenalty, idealNudgingDistance, transactions); orthogonal mode: rectangles only
 CONTAINS_CONFIGS = [('contains-poly-pen0-trans', 0, 0, 0, 1), ('contains-poly-pen10-notrans', 0, 10, 0, 0),
                     ('contains-orth-nudge4-trans', 1, 10, 4, 1), ('contains-orth-nonudge-notrans', 1, 10, 0, 0)]
+# directed history families of checks/avoid_lib.py (route_ok after every processTransaction): "noop" = moves that leave a shape's polygon unchanged
+# after connectors detour round it (zero move, self-cancelling moves, same polygon, there and back); "addmove" = add + moves + relative move of one
+# shape in one transaction; "only" = transactions of only deletions / only additions / only endpoint changes
+DIRECTED_CONFIGS = [('noop', 'noop-poly-pen0-trans', 0, 0, 0, 1), ('noop', 'noop-poly-pen10-trans', 0, 10, 0, 1), ('noop', 'noop-poly-pen0-notrans', 0, 0, 0, 0),
+                    ('noop', 'noop-orth-nudge4-trans', 1, 10, 4, 1),
+                    ('addmove', 'addmove-poly-pen0-trans', 0, 0, 0, 1), ('addmove', 'addmove-orth-nonudge-trans', 1, 10, 0, 1),
+                    ('only', 'only-orth-nonudge-trans', 1, 10, 0, 1), ('only', 'only-orth-nudge4-trans', 1, 10, 4, 1), ('only', 'only-poly-pen0-trans', 0, 0, 0, 1)]
+DIRECTED_GEN = {'noop': A.gen_noop_move_history, 'addmove': A.gen_addmove_history, 'only': A.gen_homogeneous_history}
 FP_DISPLACED = 'hyperedge_free_terminal_displaced'
 FH_ASSERT = 'orthogonalDirectionsCount(thisDirs) > 0'       # C11 known finding assert:makepath.cpp:orthogonalDirectionsCount (DESIGN 6 F-h)
 
@@ -196,7 +204,7 @@ def check_histories(res, exe, drv, hists, stats, samples):
     ans = A.run_driver(drv, queries)
     for a, (h, i, d, c, s, t, polys, route, left, inside_now) in zip(ans, meta):
         stats['routes'] += 1
-        stats['contains_routes'] += 1
+        stats['contains_routes' if h.get('family', 'contains') == 'contains' else 'directed_routes'] += 1
         stats['by_config'][h['cfg']] = stats['by_config'].get(h['cfg'], 0) + 1
         if inside_now:
             stats['contains_endpoint_inside_now'] += 1
@@ -212,8 +220,8 @@ def check_histories(res, exe, drv, hists, stats, samples):
         off = A.parse_chk(a)
         if not off:
             continue
-        obj = {'what': 'displayRoute fails the verified checker route_ok on the CURRENT scene (contains family: a shape is exempt only while it '
-                       'contains an endpoint now)', 'family': 'contains', 'config': h['cfg'], 'mode': h['mode'], 'segmentPenalty': h['pen'],
+        obj = {'what': 'displayRoute fails the verified checker route_ok on the CURRENT scene after this history (a shape is exempt only while it '
+                       'contains an endpoint now)', 'family': h.get('family', 'contains'), 'config': h['cfg'], 'mode': h['mode'], 'segmentPenalty': h['pen'],
                'idealNudgingDistance': h['nudge'], 'transactions': h['trans'], 'history': [A.hist_op_str(o) for o in h['ops'][:i + 1]],
                'shapes': polys, 'connector': c, 'src': s, 'dst': t, 'displayRoute': route, 'raw_route': d['route'].get(c),
                'a_shape_that_contained_an_endpoint_earlier_no_longer_does': left,
@@ -434,7 +442,7 @@ def run(tier):
     n_gen, n_deg = (40, 120) if tier == 'quick' else (220, 700)
     stats = {'routes': 0, 'by_config': {}, 'nontrivial': set(), 'bends_hist': {}, 'violations': 0, 'known_degenerate_chord': 0,
              'no_free_path': 0, 'exceptions': 0, 'corpus': 0, 'contains_histories': 0, 'contains_routes': 0, 'contains_endpoint_inside_now': 0,
-             'contains_shape_left_endpoint': 0, 'contains_shape_left_endpoint_bent': 0, 'contains_variants': {},
+             'contains_shape_left_endpoint': 0, 'contains_shape_left_endpoint_bent': 0, 'contains_variants': {}, 'directed_variants': {}, 'directed_routes': 0,
              'hyper_scenes': 0, 'hyper_routes': 0, 'hyper_by_kind': {}, 'hyper_junction_moved': 0, 'hyper_topology_changed': 0,
              'hyper_reversed_routes': 0, 'hyper_end_problems': 0, 'hyper_terminal_displaced': 0, 'hyper_c11_fh_assertion_skipped': 0}
     samples = []
@@ -466,6 +474,17 @@ def run(tier):
             for t in tags:
                 stats['contains_variants'][t] = stats['contains_variants'].get(t, 0) + 1
             hists.append({'cfg': name, 'mode': mode, 'pen': pen, 'nudge': nudge, 'trans': trans, 'ops': ops})
+    n_dir = 25 if tier == 'quick' else 200
+    for (fam, name, mode, pen, nudge, trans) in DIRECTED_CONFIGS:
+        k = 0
+        while k < n_dir:
+            ops, tags = DIRECTED_GEN[fam](rng, rect_only=(mode == 1))
+            if ops is None:
+                continue
+            k += 1
+            for t in tags:
+                stats['directed_variants'][fam + ':' + t] = stats['directed_variants'].get(fam + ':' + t, 0) + 1
+            hists.append({'cfg': name, 'mode': mode, 'pen': pen, 'nudge': nudge, 'trans': trans, 'ops': ops, 'family': fam})
     for i in range(0, len(hists), 200):
         check_histories(res, exe, drv, hists[i:i + 200], stats, samples)
     hscenes = []
@@ -495,6 +514,10 @@ def run(tier):
                             'routes_with_an_endpoint_inside_a_shape_now': stats['contains_endpoint_inside_now'],
                             'routes_after_a_containing_shape_left_the_endpoint': stats['contains_shape_left_endpoint'],
                             'of_those_with_a_bent_route': stats['contains_shape_left_endpoint_bent'], 'variant_histogram': stats['contains_variants']},
+        'directed_history_families': {'what': 'noop = moves that leave a polygon unchanged (zero / self-cancelling / same polygon / there and back) after connectors detour '
+                                              'round the shape; addmove = add + moves + relative move of one shape in one transaction; only = transactions of only '
+                                              'deletions / additions / endpoint changes; route_ok on the current scene after every processTransaction',
+                                      'routes_checked': stats['directed_routes'], 'variant_histogram': stats['directed_variants']},
         'hyperedge_family': {'what': 'free (1 in 4 with nudging: fixed) JunctionRef with 3-5 orthogonal connectors to free terminal points, 1-4 rectangular obstacles; kinds: corridor '
                                      '(a branch squeezed between two obstacles next to its terminal\'s column while the other branches pull the trunk that way) and '
                                      'random; improvement option none / MovingJunctions / MovingAddingAndDeletingJunctions; nudging 0 / 4; buffer 0 / 4; 8 symmetries',
